@@ -862,6 +862,28 @@ def get_defined_fun_arity(node):
     return __defined_functions[node.get_ident()][0]
 
 
+def is_recursive_defined_fun(node):
+    """Check whether the definition of the defined function ``node`` refers to
+    this function again, directly or via other defined functions.
+
+    Assumes ``is_defined_fun(node)``.
+    """
+    assert is_defined_fun(node)
+    name = node if node.is_leaf() else node.get_ident()
+    seen = []
+    todo = [name]
+    while todo:
+        _, func = __defined_functions[todo.pop()]
+        for n in nodes.dfs(func([])):
+            if n.is_leaf() and n in __defined_functions:
+                if n == name:
+                    return True
+                if n not in seen:
+                    seen.append(n)
+                    todo.append(n)
+    return False
+
+
 def get_defined_fun(node):
     """Return the defined function ``node``, instantiated with the arguments of
     ``node`` if necessary.
